@@ -5,7 +5,7 @@ from typing import Awaitable, Callable, Optional, Tuple, Union
 from .h2 import H2Protocol
 from .h11 import H2CProtocolRequiredError, H2ProtocolAssumedError, H11Protocol
 from ..config import Config
-from ..events import Event, RawData
+from ..events import Event, RawData, Updated
 from ..typing import AppWrapper, ConnectionState, TaskGroup, WorkerContext
 
 
@@ -77,6 +77,9 @@ class ProtocolWrapper:
                 self.send,
             )
             await self.protocol.initiate()
+            # No stream exists yet: the connection is idle (h11 reported
+            # the preface as a request, which stopped the idle timer)
+            await self.send(Updated(idle=True))
             if error.data != b"":
                 return await self.protocol.handle(RawData(data=error.data))
         except H2CProtocolRequiredError as error:
